@@ -202,6 +202,11 @@ def check_C02(ctx):
     report(ctx, bench, dis, orf, oracle_C02, "C02", facts_fn=c02_facts)
     # differential: the same run without the dying test gives the other tests the same results
     sub = [s for s in scens if s.kill][: sizes(ctx, 40, 400)]
+    for point, how in (("after_body", "11"), ("before_setup", "9"), ("after_write", "6"), ("after_body", "exit"), ("after_teardown", "_exit"), ("after_completion", "15")):
+        for shape in (0, 1):      # ... in an otherwise green run: the death is the only thing wrong
+            v = T("v", body=["P", "P"])
+            root = S("top", items=[T("a", body=["P"]), v, T("b", body=["QI", "P"])]) if shape == 0 else S("top", items=[S("inner", items=[T("a", body=["P"]), v]), T("b", body=["QI", "P"])])
+            sub.append(Scen(root, mode="fork", kill=(point, 1, how, "v")))
     without = []
     for s in sub:
         c = s.copy(); c.kill = None
@@ -221,9 +226,28 @@ def check_C02(ctx):
                 ctx.violation(f"[C02] test {path} is reported differently when test v dies ({s.kill}) than when v is absent: {pa.get(path)} vs {pb.get(path)}",
                               s.text(), found_input=True, facts={"kill_point": s.kill[0]})
                 break
+    # the verdict and the one error entry under the reporters that write files (the run's verdict comes from the reporter's own totals)
+    others = ["quiet", "xml", "libxml", "cdash"]
+    kms = run_model_scenarios([s.text() for s in sub])
+    kobs = bench.run_many([(s.text(), r) for s in sub for r in others])
+    kk = 0; kshown = 0
+    for s, m in zip(sub, kms):
+        for r in others:
+            o = kobs[kk]; kk += 1
+            if m.halted is not None or any(l.startswith("notok ") for l in m.lines):      # (F02 instances are reported by the main pass)
+                continue
+            if m.truth[3] > 0 and status_of(o) != "1" and kshown < 4:
+                kshown += 1
+                ctx.violation(f"[C02] {r} reporter: a test ended abnormally (truth {m.truth}) but the verdict is {status_of(o)}", f"# reporter: {r}\n" + s.text(), found_input=True, facts=dict(c02_facts(s, m), rep=r))
+            if r in ("xml", "libxml") and status_of(o) in ("0", "1"):
+                cases, errors = xml_testcases(o)
+                nerr = sum(c[3] for c in cases)
+                if not errors and nerr != m.truth[3] and kshown < 4:
+                    kshown += 1
+                    ctx.violation(f"[C02] {r} reporter: {nerr} error elements for {m.truth[3]} abnormally ended tests", f"# reporter: {r}\n" + s.text(), found_input=True, facts=dict(c02_facts(s, m), rep=r))
     ctx.coverage["differential_pairs"] = len(sub)
     ctx.coverage["samples"] = sample_of(scens)
-    ctx.coverage["evaluations"] = ctx.coverage["correspondence"]["cases"] + 2 * len(sub)
+    ctx.coverage["evaluations"] = ctx.coverage["correspondence"]["cases"] + 2 * len(sub) + len(kobs)
     ctx.coverage["distinct_nontrivial"] = len({s.text() for s in scens})
     ctx.coverage["kill_points"] = KILL_POINTS
     ctx.coverage["ways_of_dying"] = KILL_HOWS
